@@ -146,15 +146,15 @@ def check(fam, tier, seed, replay=None):
                 infra.append("harness rc=%s %s / driver rc=%s %s" % (rcs[0], rcs[1][-300:], rcs[2], rcs[3][-300:]))
         for c in cases:
             r = recs.get(c["id"], {})
-            if r.get("amb") == "1":
-                continue      # outcome depends on Go's map iteration order: no comparison, no verdict
+            if r.get("amb") == "1" or (r.get("impl") or "").startswith("!stall"):
+                continue      # outcome depends on Go's map iteration order / the harness itself was stalled: no comparison, no verdict
             if r.get("impl") is None or r.get("model") is None:
                 disagree.append(c)
                 continue
             if r.get("spec") not in ("ok", None):
                 problems.append("the model itself fails Spec on case %s: %s" % (c["id"], r["spec"]))
-                viol.append(c) if r.get("ispec", "").startswith("FAIL") else None
-            elif r.get("ispec", "-").startswith("FAIL"):
+                viol.append(c) if (r.get("ispec") or "").startswith("FAIL") else None
+            elif (r.get("ispec") or "-").startswith("FAIL"):
                 viol.append(c)
             elif r["impl"] != r["model"]:
                 disagree.append(c)
